@@ -5,5 +5,5 @@ package colsim
 // are avoided in 80% of the runs and allowed in 20% (which re-confirms the finding).
 func knownAvoid(prop string, seed uint64, run int) avoid {
 	return avoid{putThenDelete: true, failInCommit: true, mergeAfterReuse: true, lenMergeThenPut: true, dupKeyInTxn: true,
-		enumBeyond0: true, lateColSparse: true, aggStale: true, rollbackInsert: true, sortDupKeys: true, rekey: false, unionAfterClear: true, doubleDelete: true}
+		enumBeyond0: true, lateColSparse: true, aggStale: true, rollbackInsert: true, sortDupKeys: true, rekey: false, unionAfterClear: true, doubleDelete: true, phantomReserved: true, snapshotReserved: true}
 }
